@@ -1,0 +1,201 @@
+//go:build verif
+
+package plush
+
+// Verification hooks (build tag "verif"). With the tag off, verif_off.go provides
+// empty stubs and the package behaves exactly as without these files.
+//
+// The hooks sit on mutations and constructions only. A tracer, installed either by a
+// harness (VerifSetTracer) or by setting VERIF_TRACE_FILE (so that the package's own
+// tests become trace sources), receives one event per context construction, context
+// write and cache decision; after every context write it issues the public Value/Has
+// reads for the written key itself and logs the replies, so a trace says what any
+// reader would observe at that point.
+
+import (
+	"encoding/json"
+	"fmt"
+	"os"
+	"reflect"
+	"sync"
+
+	"github.com/gobuffalo/plush/v5/ast"
+)
+
+// VerifProgram is a read-only accessor to a template's parsed program.
+func VerifProgram(t *Template) *ast.Program { return t.program }
+
+// VerifEvent is one recorded event.
+type VerifEvent map[string]interface{}
+
+// VerifTracer receives events; Emit is called with the tracer's lock held.
+type VerifTracer struct {
+	mu      sync.Mutex
+	Emit    func(VerifEvent)
+	ids     map[*Context]int
+	parent  map[int]int
+	kids    map[int][]int
+	byID    map[int]*Context
+	next    int
+	reading bool
+}
+
+var verifTracer *VerifTracer
+
+// VerifSetTracer installs (or with nil removes) the tracer. Not safe to call while
+// traced operations are running.
+func VerifSetTracer(emit func(VerifEvent)) {
+	if emit == nil {
+		verifTracer = nil
+		return
+	}
+	verifTracer = &VerifTracer{Emit: emit, ids: map[*Context]int{}, parent: map[int]int{}, kids: map[int][]int{}, byID: map[int]*Context{}}
+}
+
+// VerifReset forgets all contexts seen so far and emits a reset event.
+func VerifReset() {
+	t := verifTracer
+	if t == nil {
+		return
+	}
+	t.mu.Lock()
+	defer t.mu.Unlock()
+	t.ids, t.parent, t.kids, t.byID, t.next = map[*Context]int{}, map[int]int{}, map[int][]int{}, map[int]*Context{}, 0
+	t.Emit(VerifEvent{"op": "reset"})
+}
+
+func init() {
+	p := os.Getenv("VERIF_TRACE_FILE")
+	if p == "" {
+		return
+	}
+	f, err := os.OpenFile(p, os.O_CREATE|os.O_WRONLY|os.O_APPEND, 0o644)
+	if err != nil {
+		return
+	}
+	enc := json.NewEncoder(f)
+	VerifSetTracer(func(e VerifEvent) { enc.Encode(e) })
+	verifTracer.Emit(VerifEvent{"op": "reset"})
+}
+
+// VerifFingerprint abstracts a value: printed form for scalars, type and address
+// for reference kinds, "BUILTIN" for the default helper registered under key.
+func VerifFingerprint(key string, v interface{}) string {
+	if v == nil {
+		return "nil"
+	}
+	rv := reflect.ValueOf(v)
+	switch rv.Kind() {
+	case reflect.Func:
+		if h, ok := Helpers.All()[key]; ok && reflect.ValueOf(h).Kind() == reflect.Func && reflect.ValueOf(h).Pointer() == rv.Pointer() {
+			return "BUILTIN"
+		}
+		return fmt.Sprintf("%T@%x", v, rv.Pointer())
+	case reflect.Ptr, reflect.Map, reflect.Slice, reflect.Chan, reflect.UnsafePointer:
+		return fmt.Sprintf("%T@%x/%d", v, rv.Pointer(), lenOf(rv))
+	case reflect.Bool, reflect.Int, reflect.Int8, reflect.Int16, reflect.Int32, reflect.Int64,
+		reflect.Uint, reflect.Uint8, reflect.Uint16, reflect.Uint32, reflect.Uint64, reflect.Float32, reflect.Float64:
+		return fmt.Sprintf("%T:%v", v, v)
+	case reflect.String:
+		s := rv.String()
+		if len(s) > 32 {
+			s = fmt.Sprintf("%s…%d", s[:32], len(s))
+		}
+		return fmt.Sprintf("%T:%q", v, s)
+	}
+	return fmt.Sprintf("%T", v)
+}
+
+func lenOf(rv reflect.Value) int {
+	switch rv.Kind() {
+	case reflect.Map, reflect.Slice, reflect.Chan:
+		return rv.Len()
+	}
+	return 0
+}
+
+func (t *VerifTracer) idOf(c *Context) int {
+	if c == nil {
+		return 0
+	}
+	if id, ok := t.ids[c]; ok {
+		return id
+	}
+	// a context built before the tracer was installed (or by a literal): adopt it as a root
+	t.next++
+	id := t.next
+	t.ids[c], t.byID[id] = id, c
+	d := [][2]string{}
+	for k, v := range c.data {
+		d = append(d, [2]string{k, VerifFingerprint(k, v)})
+	}
+	o := t.idOf(c.outer)
+	t.parent[id] = o
+	t.kids[o] = append(t.kids[o], id)
+	t.Emit(VerifEvent{"op": "adopt", "id": id, "o": o, "d": d})
+	return id
+}
+
+// verifCtx is called from the constructors ("new" right after the struct is built and
+// before the helper loop, "newdone" at the end) and from Set (after the write, once the
+// lock is released).
+func verifCtx(op string, c *Context, key string, value interface{}, outer *Context) {
+	t := verifTracer
+	if t == nil {
+		return
+	}
+	t.mu.Lock()
+	defer t.mu.Unlock()
+	if t.reading {
+		return
+	}
+	switch op {
+	case "new":
+		o := t.idOf(outer)
+		t.next++
+		id := t.next
+		t.ids[c], t.byID[id], t.parent[id] = id, c, o
+		t.kids[o] = append(t.kids[o], id)
+		d := [][2]string{}
+		for k, v := range c.data {
+			d = append(d, [2]string{k, VerifFingerprint(k, v)})
+		}
+		t.Emit(VerifEvent{"op": "new", "id": id, "o": o, "d": d})
+	case "newdone":
+		t.Emit(VerifEvent{"op": "newdone", "id": t.idOf(c)})
+	case "set":
+		id := t.idOf(c)
+		t.Emit(VerifEvent{"op": "set", "c": id, "k": key, "v": VerifFingerprint(key, value)})
+		// what readers observe now: the written context, its ancestors, its descendants
+		t.reading = true
+		for a := id; a != 0; a = t.parent[a] {
+			t.read(a, key)
+		}
+		t.readKids(id, key)
+		t.reading = false
+	}
+}
+
+func (t *VerifTracer) readKids(id int, key string) {
+	for _, k := range t.kids[id] {
+		t.read(k, key)
+		t.readKids(k, key)
+	}
+}
+
+func (t *VerifTracer) read(id int, key string) {
+	c := t.byID[id]
+	t.Emit(VerifEvent{"op": "value", "c": id, "k": key, "r": VerifFingerprint(key, c.Value(key)), "has": c.Has(key)})
+}
+
+// verifParse is called once per outcome of Parse: "uncached", "hit", "miss" (inserted),
+// "missfail" (parse error, nothing inserted); hit/miss under the cache mutex.
+func verifParse(ev string, input string, tmpl *Template) {
+	t := verifTracer
+	if t == nil {
+		return
+	}
+	t.mu.Lock()
+	defer t.mu.Unlock()
+	t.Emit(VerifEvent{"op": "parse", "ev": ev, "input": input, "tmpl": fmt.Sprintf("%p", tmpl), "cache": CacheEnabled})
+}
